@@ -37,6 +37,7 @@ def check(ctx):
     ctx.states += rn.distinct
     if rn.ok or not rn.violated:
         raise MachineryError("Trickery.tla without the re-check under the lock was NOT rejected: the mode-switch properties are vacuous")
+    apalache_leg(ctx)
     seen, behs = set(), []
     for e in r.emitted:
         k = json.dumps(e["acts"])
@@ -61,3 +62,46 @@ def check(ctx):
         ctx.replays += o["n"]
         for mm in o["mismatches"]:
             ctx.violation(f"[{v}] mode switch, operations {mm['acts']}: {mm['bad']}", mm)
+
+
+def apalache_leg(ctx):
+    """unbounded: the inductive invariant of the mode switch (spec/apalache/TrickeryInd.tla), discharged by Apalache for any
+    number of steps of three threads; the same module without the re-check under the lock must fail the induction step"""
+    import re
+    import shutil
+    import subprocess
+    from ..common import BUILD, VERIF, MachineryError
+    exe = shutil.which("apalache-mc")
+    if exe is None:
+        ctx.assume("apalache-mc not found: the inductive invariant of the mode switch was not discharged in this run")
+        return
+    src = (VERIF / "spec/apalache/TrickeryInd.tla").read_text()
+    d = BUILD / "apalache"
+    shutil.rmtree(d, ignore_errors=True)
+    d.mkdir(parents=True)
+    (d / "TrickeryInd.tla").write_text(src)
+    broken = src.replace('mode\' = (IF mode # "none" THEN mode ELSE "on")', 'mode\' = "on"').replace("MODULE TrickeryInd", "MODULE TrickeryIndNoRecheck")
+    if broken.count('mode\' = "on"') != 1:
+        raise MachineryError("could not derive the no-re-check variant of TrickeryInd.tla")
+    (d / "TrickeryIndNoRecheck.tla").write_text(broken)
+
+    def run(mod, init, length):
+        p = subprocess.run([exe, "check", f"--init={init}", "--inv=IndInv", f"--length={length}", f"--out-dir={d / 'out'}", f"{mod}.tla"],
+                           cwd=d, capture_output=True, text=True, timeout=900)
+        m = re.search(r"EXITCODE: (\w+)", p.stdout)
+        return (m.group(1) if m else "?"), p.stdout[-1500:]
+    base, t0 = run("TrickeryInd", "Init", 0)
+    step, t1 = run("TrickeryInd", "IndInit", 1)
+    neg, t2 = run("TrickeryIndNoRecheck", "IndInit", 1)
+    shutil.rmtree(d / "out", ignore_errors=True)
+    if base != "OK" or step != "OK":
+        if "ERROR" in (base, step) and ("violat" in (t0 + t1).lower() or "counterexample" in (t0 + t1).lower()):
+            ctx.violation("model (TrickeryInd, Apalache): the invariant of the mode switch is not inductive", (t0 + t1)[-1500:])
+            return
+        raise MachineryError(f"apalache failed on TrickeryInd.tla: base {base}, step {step}: {(t0 + t1)[-800:]}")
+    if neg == "OK":
+        raise MachineryError("TrickeryInd without the re-check under the lock passed the induction step: the invariant is vacuous")
+    ctx.count("apalache_inductive_checks", 2)
+    ctx.explanation += ("; unbounded: the inductive invariant TypeOK /\\ LockDiscipline /\\ ModeFollowsLastSet of the mode switch "
+                        "(spec/apalache/TrickeryInd.tla, three threads, any number of steps) is discharged by Apalache (Init => IndInv, "
+                        "IndInv /\\ Next => IndInv'), and the variant without the re-check fails the step")
